@@ -17,6 +17,7 @@ import LA.Props.C06
 import LA.Proofs.RuleWire
 import LA.Proofs.RulePrint
 import LA.Proofs.RuleExit
+import LA.Proofs.RuleText
 
 namespace LA.Rule
 open LA LA.Flags
@@ -583,6 +584,406 @@ theorem C07_string_filter_reparse (env : Env) (r r' : RuleData) (f opc : Nat) (l
   simp only [h0f, h0o] at hbuilt
   simp only [hf, ho]
   exact hbuilt
+
+/-! ### the text half composed over a whole line: numeric syscall rules -/
+
+theorem filterValue_flags (env : Env) (r1 r2 : RuleData) (h : r1.flags = r2.flags) (f opc : Nat) (rhs : Bytes) :
+    filterValue env r1 f opc rhs = filterValue env r2 f opc rhs := by
+  unfold filterValue
+  rw [h]
+
+/-- why a numeric triple is in a rule: Build computed its value word for a filter on that field
+under the rule's list, and the exclude-list restriction let it through. -/
+def Justified (env : Env) (fl : Nat) (t : Nat × Nat × Nat) : Prop :=
+  (∃ rhs0 a, filterValue env { flags := fl } t.1 t.2.2 rhs0 = some (t.2.1, none, a)) ∧
+  (fl == LA.Gen.RuleTables.excludeFilter && !(excludeOkFields.contains t.1)) = false
+
+/-- every numeric triple of everything rule.Build accumulates is justified. -/
+theorem justified_ruleDataOf {env : Env} {rule : Rule} {r : RuleData} (h : ruleDataOf env rule = some r) :
+    ∀ t ∈ r.trips, stringFields.contains t.1 = false → (t.1 == LA.Gen.RuleTables.fieldCompare) = false →
+      Justified env r.flags t := by
+  refine ruleDataOf_induct (env := env)
+    (fun r => ∀ t ∈ r.trips, stringFields.contains t.1 = false → (t.1 == LA.Gen.RuleTables.fieldCompare) = false →
+      Justified env r.flags t) ?_ ?_ ?_ ?_ h
+  · intro fl ac _ _ t ht; simp at ht
+  · intro r r' l o v hp hf
+    unfold addFilter at hf
+    split at hf
+    · rename_i opc f hop hfl
+      split at hf
+      · simp at hf
+      · rename_i hex
+        cases hv : filterValue env r f opc v with
+        | none => rw [hv] at hf; simp at hf
+        | some x =>
+          obtain ⟨val, s, a⟩ := x
+          rw [hv] at hf
+          simp only [Option.map_some, Option.some.injEq] at hf
+          subst hf
+          intro t ht hs hc
+          simp only [List.mem_append, List.mem_cons, List.mem_nil_iff, or_false] at ht
+          rcases ht with ht | rfl
+          · exact hp t ht hs hc
+          · have hsn := (filterValue_string hv).2 hs
+            subst hsn
+            refine ⟨⟨v, a, ?_⟩, by simpa using hex⟩
+            rw [filterValue_flags env { flags := r.flags } r rfl]
+            exact hv
+    · simp at hf
+  · intro r r' l o v hp hi
+    have hfl : r'.flags = r.flags ∧ ∀ t ∈ r'.trips, t ∈ r.trips ∨ t.1 = LA.Gen.RuleTables.fieldCompare := by
+      unfold addInterField at hi
+      cases hop : lookupB LA.Gen.RuleTables.operatorsTable o with
+      | none => rw [hop] at hi; simp at hi
+      | some opc =>
+        rw [hop] at hi
+        simp only at hi
+        split at hi
+        · simp at hi
+        · split at hi
+          · split at hi
+            · simp at hi
+            · rename_i lf rf _ _ _
+              cases hc : lookupComparison lf rf with
+              | none => rw [hc] at hi; simp at hi
+              | some c =>
+                rw [hc] at hi
+                simp only [Option.some.injEq] at hi
+                subst hi
+                refine ⟨rfl, ?_⟩
+                intro t ht
+                simp only [List.mem_append, List.mem_cons, List.mem_nil_iff, or_false] at ht
+                rcases ht with ht | rfl
+                · exact Or.inl ht
+                · exact Or.inr rfl
+          · simp at hi
+    intro t ht hs hc
+    rw [hfl.1]
+    rcases hfl.2 t ht with h1 | h1
+    · exact hp t h1 hs hc
+    · rw [h1] at hc; simp at hc
+  · intro r r' sc hp hs
+    have : r'.flags = r.flags ∧ r'.trips = r.trips := by
+      unfold addSyscall at hs
+      split at hs
+      · simp only [Option.some.injEq] at hs; subst hs; exact ⟨rfl, rfl⟩
+      · simp only at hs
+        split at hs
+        · simp at hs
+        · split at hs
+          · simp at hs
+          · simp only [Option.some.injEq] at hs; subst hs; exact ⟨rfl, rfl⟩
+    intro t ht hs' hc
+    rw [this.1]
+    exact hp t (by rw [← this.2]; exact ht) hs' hc
+
+/-- re-adding the printed parts of a run of numeric triples, one after the other, appends exactly
+those triples. -/
+theorem foldl_addFilter_numeric (env : Env) (he : EnvOk env) (ts : List (Nat × Nat × Nat)) (names : List (Bytes × Bytes))
+    (hlen : names.length = ts.length)
+    (hn : ∀ (i : Nat) (t : Nat × Nat × Nat) (nm : Bytes × Bytes), ts[i]? = some t → names[i]? = some nm → NumTrip t nm.1 nm.2)
+    (r0 : RuleData) (hj : ∀ t ∈ ts, Justified env r0.flags t) (hperm : ∀ t ∈ ts, t.1 = LA.Gen.RuleTables.permField → t.2.1 ≠ 0) :
+    ((ts.zip names).map (fun p => mkFilter (partsOf p.1 p.2.1 p.2.2))).foldl (fun (acc : Option RuleData) f =>
+        acc.bind fun r =>
+          if (f.typ == 2) = true then addFilter env r f.lhs f.op f.rhs
+          else if (f.typ == 1) = true then addInterField r f.lhs f.op f.rhs
+          else some r) (some r0) = some { r0 with trips := r0.trips ++ ts } := by
+  induction ts generalizing names r0 with
+  | nil => simp
+  | cons t ts ih =>
+    cases names with
+    | nil => simp at hlen
+    | cons nm names =>
+      have h0 := hn 0 t nm rfl rfl
+      obtain ⟨⟨rhs0, a, hb⟩, hex⟩ := hj t (by simp)
+      have hb' : filterValue env r0 t.1 t.2.2 rhs0 = some (t.2.1, none, a) := by
+        rw [filterValue_flags env r0 { flags := r0.flags } rfl]; exact hb
+      have step := (C07_filter_reparse env he r0 t.1 t.2.1 t.2.2 nm.1 nm.2 rhs0 a h0.lhs h0.op h0.notStr h0.notArch hb' hex
+        (hperm t (by simp))).2
+      simp only [List.zip_cons_cons, List.map_cons, List.foldl_cons, Option.bind_some, mkFilter, partsOf,
+        beq_self_eq_true, if_true, step]
+      have := ih names (by simpa using hlen)
+        (fun i t' nm' ht hnm => hn (i + 1) t' nm' (by simpa using ht) (by simpa using hnm))
+        { r0 with trips := r0.trips ++ [(t.1, t.2.1, t.2.2)] }
+        (fun x hx => hj x (by simp [hx])) (fun x hx => hperm x (by simp [hx]))
+      simp only [mkFilter, partsOf] at this
+      rw [this]
+      simp [List.append_assoc]
+
+theorem toWire_congr (r1 r2 : RuleData) (h1 : r1.flags = r2.flags) (h2 : r1.action = r2.action) (h3 : r1.trips = r2.trips)
+    (h4 : r1.strings = r2.strings) (h5 : r1.allSyscalls = r2.allSyscalls) (h6 : r1.syscalls = r2.syscalls) :
+    toWire r1 = toWire r2 := by
+  unfold toWire maskOf RuleData.fields RuleData.values RuleData.fieldFlags
+  rw [h1, h2, h3, h4, h5, h6]
+
+theorem aligned_no_strings {ts : List (Nat × Nat × Nat)} {ss : List Bytes} (h : Aligned ts ss)
+    (hn : ∀ t ∈ ts, stringFields.contains t.1 = false) : ss = [] := by
+  induction ts with
+  | nil => simpa [Aligned] using h
+  | cons t ts ih =>
+    simp only [Aligned, hn t (by simp), Bool.false_eq_true, if_false] at h
+    exact ih h (fun x hx => hn x (by simp [hx]))
+
+theorem fTokens_length (parts : List (Bytes × Bytes × Bytes)) : (fTokens parts).length = 2 * parts.length := by
+  induction parts with
+  | nil => rfl
+  | cons t ts ih => simp only [fTokens, List.flatMap_cons, List.length_append, List.length_cons, List.length_nil] at ih ⊢; omega
+
+/-- the flag set after the printed line has been read -/
+def fsAfter (l a : Bytes) (sys : List Bytes) (vis : List Nat) (parts : List (Bytes × Bytes × Bytes)) : FS :=
+  { append := some (l, a), syscalls := sys, filters := parts.map mkFilter, visited := vis }
+
+/-- the tokens of the line ToCommandLine prints for an all-syscalls rule with numeric filters -/
+def numericTokens (fl : Nat) (l a : Bytes) (parts : List (Bytes × Bytes × Bytes)) : List Bytes :=
+  [tokA, a ++ [44] ++ l] ++
+  (if fl == LA.Gen.RuleTables.exitFilter || fl == LA.Gen.RuleTables.entryFilter then [tokS, ofString "all"] else []) ++
+  fTokens parts
+
+/-- Second clause of C07 as one theorem, for a whole class of rules: every syscall rule that Build
+accepts, that applies to all syscalls and whose filters are all numeric (no string-valued field
+or key, no arch filter, no inter-field comparison, no empty permission set). For such a rule
+(1) ToCommandLine's text is `-a action,list [-S all] -F f1 … -F fn` with one element per filter,
+(2) the tokens of that text are accepted by flags.Parse, and Build on the result accumulates the
+same list, action and (field, value, operator) triples in the same order, and
+(3) therefore re-encodes to byte-identical wire data.
+(Shell tokenisation of the text into the tokens is outside the model, as in C14.) -/
+theorem C07_roundtrip_numeric (env : Env) (he : EnvOk env) (rule : Rule) (r : RuleData)
+    (hr : ruleDataOf env rule = some r)
+    (hnum : ∀ t ∈ r.trips, stringFields.contains t.1 = false ∧ (t.1 == LA.Gen.RuleTables.archField) = false ∧
+      (t.1 == LA.Gen.RuleTables.fieldCompare) = false)
+    (hperm : ∀ t ∈ r.trips, t.1 = LA.Gen.RuleTables.permField → t.2.1 ≠ 0)
+    (hall : r.allSyscalls = true) (hsys : r.syscalls = []) :
+    ∃ (l a : Bytes) (names : List (Bytes × Bytes)),
+      getList r.flags = some l ∧ getAction r.action = some a ∧ names.length = r.trips.length ∧
+      cmdLineOf r = some (joinWith [32] ([ofString "-a", a ++ [44] ++ l] ++
+        (if r.flags == LA.Gen.RuleTables.exitFilter || r.flags == LA.Gen.RuleTables.entryFilter then [ofString "-S", ofString "all"] else []) ++
+        (r.trips.zip names).map (fun p => ofString "-F " ++ p.2.1 ++ p.2.2 ++ fieldRhs p.1.1 p.1.2.1))) ∧
+      ∃ rule' r', parseArgs (numericTokens r.flags l a ((r.trips.zip names).map (fun p => partsOf p.1 p.2.1 p.2.2))) = some rule' ∧
+        ruleDataOf env rule' = some r' ∧ r'.trips = r.trips ∧ toWire r' = toWire r := by
+  have hp := printInv_ruleDataOf he hr
+  have hal := aligned_ruleDataOf hr
+  have hstr : r.strings = [] := aligned_no_strings hal (fun t ht => (hnum t ht).1)
+  have hjust := justified_ruleDataOf hr
+  -- names of list and action
+  cases hl : getList r.flags with
+  | none => have := hp.list; rw [hl] at this; cases this
+  | some l =>
+  cases ha : getAction r.action with
+  | none => have := hp.action; rw [ha] at this; cases this
+  | some a =>
+  -- names of every field and operator
+  have hnames : ∀ t ∈ r.trips, ∃ nm : Bytes × Bytes, NumTrip t nm.1 nm.2 := by
+    intro t ht
+    obtain ⟨h1, h2, h3⟩ := hnum t ht
+    have hok := hp.trips t ht
+    unfold tripOk at hok
+    simp only [Bool.and_eq_true, h2, Bool.false_eq_true, if_false, h3] at hok
+    cases ho : revLookup LA.Gen.RuleTables.operatorsTable t.2.2 with
+    | none => rw [ho] at hok; cases hok.1
+    | some opS =>
+      cases hf : revLookup LA.Gen.RuleTables.fieldsTable t.1 with
+      | none => rw [hf] at hok; cases hok.2
+      | some lhs => exact ⟨(lhs, opS), ⟨h1, h2, h3, hf, ho⟩⟩
+  obtain ⟨names, hlen, hn⟩ : ∃ names : List (Bytes × Bytes), names.length = r.trips.length ∧
+      ∀ (i : Nat) (t : Nat × Nat × Nat) (nm : Bytes × Bytes), r.trips[i]? = some t → names[i]? = some nm → NumTrip t nm.1 nm.2 := by
+    generalize r.trips = ts at hnames
+    induction ts with
+    | nil => exact ⟨[], rfl, by intro i t nm ht; simp at ht⟩
+    | cons t ts ih =>
+      obtain ⟨nm, hnm⟩ := hnames t (by simp)
+      obtain ⟨ns, hl', hn'⟩ := ih (fun x hx => hnames x (by simp [hx]))
+      refine ⟨nm :: ns, by simp [hl'], ?_⟩
+      intro i t' nm' ht' hnm'
+      cases i with
+      | zero => simp at ht' hnm'; subst ht'; subst hnm'; exact hnm
+      | succ j => exact hn' j t' nm' (by simpa using ht') (by simpa using hnm')
+  refine ⟨l, a, names, rfl, rfl, hlen, ?_, ?_⟩
+  · -- (1) the printed text
+    unfold cmdLineOf
+    rw [hl, ha]
+    simp only
+    have hw : asFileWatch r = none := by
+      unfold asFileWatch
+      simp only [hstr, List.length_nil]
+      by_cases hn2 : r.fields.length = 2
+      · simp [hn2, hall]
+      · by_cases hn3 : r.fields.length = 3
+        · simp [hn3, hall]
+        · simp [hn2, hn3, hall]
+    rw [hw]
+    simp only
+    have hnoarch : lastIndexOf r.fields LA.Gen.RuleTables.archField = none := by
+      unfold lastIndexOf
+      have : (r.fields.zipIdx).filter (fun p => p.1 == LA.Gen.RuleTables.archField) = [] := by
+        rw [List.filter_eq_nil_iff]
+        intro p hpm
+        have hz := List.mem_zipIdx_iff_getElem?.mp hpm
+        simp only [RuleData.fields, List.getElem?_map, Option.map_eq_some_iff] at hz
+        obtain ⟨t, hti, htf⟩ := hz
+        have := (hnum t (List.mem_of_getElem? hti)).2.1
+        rw [htf] at this
+        simpa using this
+      rw [this]; rfl
+    rw [hnoarch]
+    simp only
+    have hpf := printFields_numeric r.trips names r.strings hlen hn
+    simp only [RuleData.fields, RuleData.values, RuleData.fieldFlags, hpf, hall, if_true]
+    simp [List.append_assoc]
+  · -- (2) the tokens re-parse and re-build
+    obtain ⟨parts, hparts⟩ : ∃ parts, parts = (r.trips.zip names).map (fun p => partsOf p.1 p.2.1 p.2.2) := ⟨_, rfl⟩
+    rw [← hparts]
+    have hmatch : ∀ t ∈ parts, matchFilter (t.1 ++ t.2.1 ++ t.2.2) = some t := by
+      intro t ht
+      rw [hparts] at ht
+      obtain ⟨p, hpz, rfl⟩ := List.mem_map.mp ht
+      -- p = (triple, name) at some index
+      obtain ⟨i, hi⟩ := List.getElem?_of_mem hpz
+      rw [List.getElem?_zip_eq_some] at hi
+      have hnt := hn i p.1 p.2 hi.1 hi.2
+      have htrip : p.1 ∈ r.trips := List.mem_of_getElem? hi.1
+      obtain ⟨⟨rhs0, a', hb⟩, hex⟩ := hjust p.1 htrip hnt.notStr hnt.notCmp
+      have hb' : filterValue env r p.1.1 p.1.2.2 rhs0 = some (p.1.2.1, none, a') := by
+        rw [filterValue_flags env r { flags := r.flags } rfl]; exact hb
+      exact (C07_filter_reparse env he r p.1.1 p.1.2.1 p.1.2.2 p.2.1 p.2.2 rhs0 a' hnt.lhs hnt.op hnt.notStr hnt.notArch hb' hex
+        (hperm p.1 htrip)).1
+    have hplen : parts.length = r.trips.length := by
+      rw [hparts]; simp [hlen]
+    -- run the flag loop
+    have hadd := setAdd_print hl ha
+    have hsetA : setFlag {} 97 (a ++ [44] ++ l) = some (fsAfter l a [] [97] []) := by
+      unfold setFlag
+      simp only [beq_self_eq_true, if_true, hadd, Option.map_some, fsAfter, List.map_nil, List.nil_append]
+    have hsplit : splitList (ofString "all") = [ofString "all"] := by decide +kernel
+    have hnot : ∀ (x : Nat), x ∈ List.replicate parts.length 70 → x = 70 := fun x hx => (List.mem_replicate.mp hx).2
+    have hfold := foldl_addFilter_numeric env he r.trips names hlen hn
+      { flags := r.flags, action := r.action, allSyscalls := true }
+      (fun t ht => hjust t ht (hnum t ht).1 (hnum t ht).2.2) hperm
+    have hfold' : (parts.map mkFilter).foldl (fun (acc : Option RuleData) f =>
+        acc.bind fun r =>
+          if (f.typ == 2) = true then addFilter env r f.lhs f.op f.rhs
+          else if (f.typ == 1) = true then addInterField r f.lhs f.op f.rhs
+          else some r) (some { flags := r.flags, action := r.action, allSyscalls := true }) =
+        some { flags := r.flags, action := r.action, allSyscalls := true, trips := r.trips } := by
+      rw [hparts, List.map_map]
+      have hcomp : (mkFilter ∘ fun (p : (Nat × Nat × Nat) × Bytes × Bytes) => partsOf p.1 p.2.1 p.2.2) =
+          (fun p => mkFilter (partsOf p.1 p.2.1 p.2.2)) := rfl
+      rw [hcomp]
+      simpa using hfold
+    by_cases hexit : (r.flags == LA.Gen.RuleTables.exitFilter || r.flags == LA.Gen.RuleTables.entryFilter) = true
+    · -- "-S all" is printed
+      have htok : numericTokens r.flags l a parts = tokA :: (a ++ [44] ++ l) :: tokS :: ofString "all" :: (fTokens parts ++ []) := by
+        simp only [numericTokens, hexit, if_true, List.cons_append, List.nil_append, List.append_nil]
+      have hfuel : (numericTokens r.flags l a parts).length + 1 = (((3 + parts.length) + parts.length) + 1) + 1 := by
+        rw [htok]
+        simp only [List.length_cons, List.length_append, List.length_nil, fTokens_length]
+        omega
+      have hloop : parseLoop ((numericTokens r.flags l a parts).length + 1) (numericTokens r.flags l a parts) {} =
+          some (fsAfter l a [ofString "all"] ([97] ++ [83] ++ List.replicate parts.length 70) parts, 0) := by
+        rw [hfuel, htok, parseLoop_a, hsetA]
+        simp only [Option.bind_some]
+        rw [parseLoop_S]
+        have hsetS : setFlag (fsAfter l a [] [97] []) 83 (ofString "all") = some (fsAfter l a [ofString "all"] ([97] ++ [83]) []) := by
+          unfold setFlag
+          simp only [show ((83 : Nat) == 97) = false by decide, show ((83 : Nat) == 65) = false by decide,
+            show ((83 : Nat) == 67) = false by decide, show ((83 : Nat) == 70) = false by decide, Bool.false_eq_true,
+            if_false, beq_self_eq_true, if_true, hsplit, fsAfter, List.map_nil, List.nil_append]
+        rw [hsetS]
+        simp only [Option.bind_some]
+        rw [parseLoop_fTokens parts hmatch]
+        have e3 : 3 + parts.length = (2 + parts.length) + 1 := by omega
+        rw [e3]
+        simp only [fsAfter, List.map_nil, List.nil_append, parseLoop]
+      have hfin : finish (fsAfter l a [ofString "all"] ([97] ++ [83] ++ List.replicate parts.length 70) parts) =
+          some (.syscall 3 l a (parts.map mkFilter) [ofString "all"] []) := by
+        unfold finish fsAfter
+        have c1 : ([97] ++ [83] ++ List.replicate parts.length 70).contains 68 = false := by
+          simp only [List.contains_eq_mem, decide_eq_false_iff_not, List.mem_append, List.mem_cons, List.mem_nil_iff, or_false]
+          intro hh
+          rcases hh with (hh | hh) | hh
+          · omega
+          · omega
+          · have := hnot 68 hh; omega
+        have c2 : ([97] ++ [83] ++ List.replicate parts.length 70).any (fun n => n == 119 || n == 112) = false := by
+          rw [List.any_eq_false]
+          intro x hx
+          simp only [List.mem_append, List.mem_cons, List.mem_nil_iff, or_false] at hx
+          rcases hx with (rfl | rfl) | hx
+          · decide
+          · decide
+          · rw [hnot x hx]; decide
+        have c3 : ([97] ++ [83] ++ List.replicate parts.length 70).any (fun n => n == 97 || n == 65 || n == 67 || n == 70 || n == 83) = true := by
+          simp
+        simp only [c1, c2, c3]
+        rfl
+      have hparse : parseArgs (numericTokens r.flags l a parts) = some (.syscall 3 l a (parts.map mkFilter) [ofString "all"] []) := by
+        unfold parseArgs
+        rw [hloop]
+        simp only [Nat.lt_irrefl, if_false, gt_iff_lt]
+        exact hfin
+      have hrd : ruleDataOf env (.syscall 3 l a (parts.map mkFilter) [ofString "all"] []) =
+          some { flags := r.flags, action := r.action, allSyscalls := true, explicitAll := true, trips := r.trips } := by
+        simp only [ruleDataOf, setList_getList hl, setAction_getAction ha, hfold']
+        simp [addSyscall, addKeys]
+      refine ⟨_, _, hparse, hrd, rfl, ?_⟩
+      exact toWire_congr _ _ rfl rfl rfl hstr.symm hall.symm hsys.symm
+    · -- no "-S all" on this list
+      have hexit' : (r.flags == LA.Gen.RuleTables.exitFilter || r.flags == LA.Gen.RuleTables.entryFilter) = false := by
+        simpa using hexit
+      have htok : numericTokens r.flags l a parts = tokA :: (a ++ [44] ++ l) :: (fTokens parts ++ []) := by
+        simp only [numericTokens, hexit', Bool.false_eq_true, if_false, List.cons_append, List.nil_append, List.append_nil]
+      have hfuel : (numericTokens r.flags l a parts).length + 1 = ((2 + parts.length) + parts.length) + 1 := by
+        rw [htok]
+        simp only [List.length_cons, List.length_append, List.length_nil, fTokens_length]
+        omega
+      have hloop : parseLoop ((numericTokens r.flags l a parts).length + 1) (numericTokens r.flags l a parts) {} =
+          some (fsAfter l a [] ([97] ++ List.replicate parts.length 70) parts, 0) := by
+        rw [hfuel, htok, parseLoop_a, hsetA]
+        simp only [Option.bind_some]
+        rw [parseLoop_fTokens parts hmatch]
+        have e3 : 2 + parts.length = (1 + parts.length) + 1 := by omega
+        rw [e3]
+        simp only [fsAfter, List.map_nil, List.nil_append, parseLoop]
+      have hfin : finish (fsAfter l a [] ([97] ++ List.replicate parts.length 70) parts) =
+          some (.syscall 3 l a (parts.map mkFilter) [] []) := by
+        unfold finish fsAfter
+        have c1 : ([97] ++ List.replicate parts.length 70).contains 68 = false := by
+          simp only [List.contains_eq_mem, decide_eq_false_iff_not, List.mem_append, List.mem_cons, List.mem_nil_iff, or_false]
+          intro hh
+          rcases hh with hh | hh
+          · omega
+          · have := hnot 68 hh; omega
+        have c2 : ([97] ++ List.replicate parts.length 70).any (fun n => n == 119 || n == 112) = false := by
+          rw [List.any_eq_false]
+          intro x hx
+          simp only [List.mem_append, List.mem_cons, List.mem_nil_iff, or_false] at hx
+          rcases hx with rfl | hx
+          · decide
+          · rw [hnot x hx]; decide
+        have c3 : ([97] ++ List.replicate parts.length 70).any (fun n => n == 97 || n == 65 || n == 67 || n == 70 || n == 83) = true := by
+          simp
+        simp only [c1, c2, c3]
+        rfl
+      have hparse : parseArgs (numericTokens r.flags l a parts) = some (.syscall 3 l a (parts.map mkFilter) [] []) := by
+        unfold parseArgs
+        rw [hloop]
+        simp only [Nat.lt_irrefl, if_false, gt_iff_lt]
+        exact hfin
+      have hrd : ruleDataOf env (.syscall 3 l a (parts.map mkFilter) [] []) =
+          some { flags := r.flags, action := r.action, allSyscalls := true, trips := r.trips } := by
+        simp only [ruleDataOf, setList_getList hl, setAction_getAction ha, hfold']
+        simp [addKeys]
+      refine ⟨_, _, hparse, hrd, rfl, ?_⟩
+      exact toWire_congr _ _ rfl rfl rfl hstr.symm hall.symm hsys.symm
+
+/-- non-vacuity of `C07_roundtrip_numeric`: `-a always,exit -F pid=1 -F uid>=1000 -F exit=-2`
+satisfies its hypotheses. -/
+example : ((ruleDataOf ⟨false, [], []⟩ (.syscall 3 (ofString "exit") (ofString "always")
+    [⟨2, ofString "pid", [61], ofString "1"⟩, ⟨2, ofString "uid", [62, 61], ofString "1000"⟩,
+     ⟨2, ofString "exit", [61], ofString "-2"⟩] [] [])).map (fun r =>
+      r.allSyscalls && r.syscalls.isEmpty && decide (r.trips.length = 3) &&
+      r.trips.all (fun t => !(stringFields.contains t.1) && !(t.1 == LA.Gen.RuleTables.archField) &&
+        !(t.1 == LA.Gen.RuleTables.fieldCompare) && !(t.1 == LA.Gen.RuleTables.permField)))) = some true := by
+  decide +kernel
 
 /-- Wire round trip: the library's own decoder (fromWireFormat + fromAuditRuleData, the first half
 of ToCommandLine) inverts its encoder on everything rule.Build produces — list, action, every
